@@ -39,7 +39,11 @@ def standins(tier, seed):
            'inv', 'div', 'hodge', 'unhodge', 'rp', 'polarity', 'unpolarity']
     n = 3 if tier == 'quick' else 12
     cfgs = [dict(name='2DPGA'), dict(name='3DPGA'), dict(p=3, basis=['e', 'e1', 'e2', 'e3', 'e12', 'e31', 'e23', 'e123']),
-            dict(p=3, basis=['e', 'e1', 'e2', 'e3', 'e12', 'e13', 'e23', 'e132']), dict(p=2, q=0, r=1, start_index=2)]
+            dict(p=3, basis=['e', 'e1', 'e2', 'e3', 'e12', 'e13', 'e23', 'e132']), dict(p=2, q=0, r=1, start_index=2),
+            # same generators (names, order, start index) as the default-basis algebra it is compared with, only the blades are spelled
+            # differently: the two algebras live in one process and must not share anything derived from their spellings
+            dict(signature=[1, 1, 1], basis=['e', 'e0', 'e1', 'e2', 'e10', 'e20', 'e21', 'e210']),
+            dict(signature=[0, 1, 1], basis=['e', 'e0', 'e1', 'e2', 'e10', 'e02', 'e21', 'e021'])]
     for d in (2, 3) + ((4,) if tier != 'quick' else ()):
         cfgs += _custom_bases(rng, d, 2 if tier == 'quick' else 12)
     if tier != 'quick':
